@@ -2106,6 +2106,29 @@ CORE_PRELUDE = {"Option", "Some", "None", "Result", "Ok", "Err", "Self", "Defaul
 NOSTD_BARE_OK = CORE_PRELUDE - {"Box", "String", "Vec", "ToString", "ToOwned"}
 
 
+PRIVATE_HELPER_NAMES = ("__sanitize__", "__validate__")
+
+
+def norm_fns(records, public_types=()):
+    """the function records of an expansion, up to what no client can observe: private inherent
+    helpers that neither return nor construct the type nor hand out `&mut` are dropped (their
+    number and names are the macro's business), and calls of such helpers are not listed.  Public
+    functions and trait methods are compared exactly."""
+    out = []
+    for rec in records:
+        r = rec.split("|")
+        kv = dict(x.split("=", 1) for x in r[4:])
+        if r[1] == "-" and kv.get("pub") == "0" and kv.get("ret_self") == "0" and kv.get("ctor") == "0" \
+                and kv.get("ret_mut") == "0" and kv.get("recv") != "mut" and kv.get("field") != "mut" and kv.get("unsafe") == "0":
+            continue
+        if r[2].startswith("other:") and r[2][6:] not in public_types:
+            r[2] = "other:_"        # a private helper type of the expansion (e.g. the serde visitor): its name is not observable
+        calls = [c_ for c_ in kv.get("calls", "-").split(",") if c_ and c_ != "-" and c_ not in PRIVATE_HELPER_NAMES]
+        kv["calls"] = ",".join(calls) or "-"
+        out.append("|".join(r[:4] + ["%s=%s" % (k_, kv[k_]) for k_ in (x.split("=", 1)[0] for x in r[4:])]))
+    return sorted(out)
+
+
 def inventory_check(g, rep, what, decl_filter=None):
     """compare the real expansions with the model's inventory; `what` selects the facets a
     property looks at: 'c05' (constructors, mutable access, privacy, visibility),
@@ -2124,8 +2147,9 @@ def inventory_check(g, rep, what, decl_filter=None):
         if not mine:
             rep.violation("no expansion records for %s" % d.id, payload, no_input=True)
             continue
-        fns = sorted("|".join(r) for r in mine if r[0] == "fn" and r[-1] == "auto=0")
-        mfns = sorted("|".join(r) + "|auto=0" for r in model if r[0] == "fn")
+        pubty = ("TError", "TParseError", d.name + "Error", d.name + "ParseError")
+        fns = norm_fns(("|".join(r) for r in mine if r[0] == "fn" and r[-1] == "auto=0"), pubty)
+        mfns = norm_fns(("|".join(r) + "|auto=0" for r in model if r[0] == "fn"), pubty)
         uses = sorted("|".join(r) for r in mine if r[0] == "use")
         vis_txt = {"": "priv", "pub": "pub", "pub_crate": "pub(crate)", "pub_super": "pub(super)"}
         muses = sorted("use|%s|%s" % (vis_txt.get(r[1], r[1]), r[2]) for r in model if r[0] == "use")
